@@ -72,6 +72,9 @@ theorem inv_step {s : St} (h : Inv s) (e : Ev) : Inv (step s e).1 := by
         simpa [move_length] using h
       · exact inv_release h _ hc _ _
     · exact h
+  | rollbackFailedEarly w =>
+    simp only [step]
+    split <;> exact h
   | drop w => exact inv_dropWriter h w
   | wait w => exact inv_dropWriter h w
   | kill w =>
